@@ -50,7 +50,8 @@ def run(chk):
                 "meet, upper bound, difference, concatenate, add_constraint(s), affine (pre)image, unconstrain, dimension changes, closure, omega_reduce, "
                 "pairwise_reduce, collapse(n), collapse(), add_non_bottom_disjunct_preserve_reduction, drop / mutate of a disjunct, copies, assignments, "
                 "swaps and queries; any step that consults abandon_expensive_computations is, with probability 0.12 and in a dedicated family, run with the flag raised "
-                "(`hurry'); plus blocks of bare Determinate handle operations. A step is distinct by its case line and counted non-trivial when "
+                "(`hurry'); slabs / boxes with unbounded sides in every disjunct order under pairwise_reduce; Pointset_Powerset<Grid> covers with and without finite "
+                "partitions in every disjunct order (geometric predicates, difference); plus blocks of bare Determinate handle operations. A step is distinct by its case line and counted non-trivial when "
                 "it is an op/qry/cw step judged by a verified function (not a skipped unchanged state)")
     chk.trusted += TRUSTED
     chk.assumptions += [
